@@ -41,7 +41,8 @@ EXPLANATION = (
     "inner connection_made. (M4) Both create_server factories build the protocol with "
     "identical arguments. (M5) The rejection written is the component's text. Handler side "
     "effects before a first await and task scheduling order are not decided. "
-    "(M3, cut) Where a request class assembles its ParsedURL by hand, the URL the chain is consulted with and the path the handler acts on are the same canonical cut of the request line."
+    "(M3, cut) Where a request class assembles its ParsedURL by hand, the URL the chain is consulted with and the path the handler acts on are the same canonical cut of the request line. "
+    "(M3f) The fingerprint function is sha256 over DER, untruncated and pure (no module state or cache)."
 )
 
 
